@@ -482,12 +482,23 @@ func (r *rtRun) ServeHTTP(w http.ResponseWriter, req *http.Request) {
 		readBody()
 	}
 	off, ci := 0, 0
+	var scratch []byte
 	for off < len(body) {
 		n := chunkAt(e.RChunks, ci)
 		if off+n > len(body) {
 			n = len(body) - off
 		}
-		m, err := w.Write(body[off : off+n])
+		// handlers commonly write from one re-used buffer (io.CopyBuffer, bufio, encoders): io.Writer forbids Write to
+		// retain the slice, so the bytes are copied into a scratch buffer that is overwritten as soon as Write returns
+		if cap(scratch) < n {
+			scratch = make([]byte, n)
+		}
+		scratch = scratch[:n]
+		copy(scratch, body[off:off+n])
+		m, err := w.Write(scratch)
+		for i := range scratch {
+			scratch[i] = 0xEE
+		}
 		switch {
 		case !bodyAllowed(e.Status):
 			if m != 0 || !errors.Is(err, http.ErrBodyNotAllowed) {
@@ -589,7 +600,13 @@ func (r *rtRun) client(env *env, idx int, wg *sync.WaitGroup) {
 				if off+n > len(data) {
 					n = len(data) - off
 				}
-				if _, err := pw.Write(data[off : off+n]); err != nil {
+				// the same for the request body: written from a buffer that is re-used afterwards
+				rb := append([]byte(nil), data[off:off+n]...)
+				_, err := pw.Write(rb)
+				for i := range rb {
+					rb[i] = 0xEE
+				}
+				if err != nil {
 					return
 				}
 				off += n
